@@ -15,11 +15,11 @@ CLAIMED = {
          "As C01.",
          "DESIGN.md §4 C06"),
  'C09': ("differential testing of two builds (serial co-process vs parallel feature) under scoped rayon pools with seeded schedule perturbation (proptest)",
-         "Every generated module (1-400 functions, valid and with errors inside bodies) is parsed and emitted by the serial build and, in the parallel build, inside pools of 1,2,3,4,8,16 threads with repeats while yields/sleeps are injected from inside the parallel closures; decisions and bytes must be identical. Schedules are sampled, not enumerated: this is the stated limit of the technique for this property.",
+         "Every generated module (1-400 functions, valid and with errors inside bodies) is parsed and emitted by the serial build and, in the parallel build, inside pools of 1,2,3,4,8,16 threads with repeats while yields/sleeps are injected from inside the parallel closures; decisions and bytes must be identical; the comparison is repeated with the GC pass between parse and emit, with a custom section that echoes the code transform into the output, and with DWARF generation on for inputs carrying LLVM-like DWARF; some inputs have a function body above 32 KiB. Schedules are sampled, not enumerated: this is the stated limit of the technique for this property.",
          "rayon's scheduler is not under harness control; a violation needing one exact interleaving can be missed.",
          "DESIGN.md §4 C09, §6"),
  'C18': ("metamorphic differential execution: host-function-as-model vs replaced body; lock-step comparison for export replacement (proptest)",
-         "replace_imported_func: the original module run with the host function replaced by the closed-form model of the generated body must equal the edited module on all observables; the import list must shrink by exactly that entry; the id must be unchanged. replace_exported_func: calls to that export must return the model's results without side effects while all other calls equal the original run. Output must validate.",
+         "replace_imported_func: the original module run with the host function replaced by the closed-form model of the generated body must equal the edited module on all observables; the import list must shrink by exactly that entry; the id must be unchanged. replace_exported_func: calls to that export must return the model's results without side effects while all other calls equal the original run (re-exported imports are candidates too: refused today, judged alike if accepted); replacement bodies may leave parameters unread; the replaced function keeps its debug name; a refused replacement must leave the emitted module byte-identical. Output must validate.",
          "Replacement bodies come from a side-effect-free family with a closed-form model.",
          "DESIGN.md §4 C18"),
 
@@ -33,15 +33,15 @@ CLAIMED = {
          "Pairs that fall into dead code walrus happens to retain cannot be judged and are counted separately.",
          "DESIGN.md §4 C11"),
  'C13': ("property-based generation of name sections (proptest), bijection-based name transport oracle",
-         "Names of every kind are transported through the independently verified renumbering bijection (plain, synthetic-name config, GC): every input name on a surviving entity must be on its image, every output name must come from its preimage, with exactly the allowances of the statement.",
+         "Names of every kind are transported through the independently verified renumbering bijection (plain, synthetic-name config, GC, producers off; a further pass after replace_exported_func judged by per-function tags); name sections contain dangling entries for indices nothing is defined at: every input name on a surviving entity must be on its image, every output name must come from its preimage, with exactly the allowances of the statement.",
          "Name section placed after the data section; GC-mode ambiguity between content-identical entities resolved in walrus's favour.",
          "DESIGN.md §4 C13"),
  'C14': ("exhaustive enumeration of the 2^5 switch combinations per generated input (proptest for inputs), metamorphic one-switch-at-a-time oracle",
-         "For each input all 32 configurations are run; outputs differing in one switch must differ exactly as documented (name / producers section removed and nothing else, .debug_* present iff DWARF on and present in the input, code-transform and only-stable flags neutral), producers content is preserved with exactly one walrus entry after 1-3 round trips, and an on_parse counter is 1 after Ok and 0 after Err (valid and mutated inputs).",
+         "For each input all 32 configurations are run; outputs differing in one switch must differ exactly as documented (name / producers section removed and nothing else, .debug_* present iff DWARF on and present in the input, code-transform and only-stable flags neutral), producers content is preserved with exactly one walrus entry after 1-3 round trips, and an on_parse counter is 1 after Ok and 0 after Err (valid and mutated inputs) through ModuleConfig::parse, parse_file, Module::from_file_with_config and from_buffer_with_config, which must also agree on the output; configurations are reached through setter histories (each switch possibly set to the opposite value first, strict_validate toggled); Module::from_file / from_buffer / emit_wasm_file agree; producers added through the API are emitted next to the input's.",
          "DWARF inputs are synthesized well-formed DWARF; arbitrary .debug_* bytes are only used with DWARF generation off.",
          "DESIGN.md §4 C14"),
  'C19': ("property-based generation (proptest), observation through on_parse and a spy CustomSection, decode + bijection oracle",
-         "Inside on_parse every index of every index space is resolved to an id and checked against the independent decode of the input (content, import names, body range, local types and parameter positions; out-of-range must fail); inside CustomSection::data every live id's emitted index must be the image of its input index under the independently verified bijection; plain and GC modes.",
+         "Inside on_parse every index of every index space is resolved to an id and checked against the independent decode of the input (content, import names, body range, local types and parameter positions; out-of-range must fail); inside CustomSection::data every live id's emitted index must be the image of its input index under the independently verified bijection; plain, GC and synthetic-name modes; functions and data segments are additionally identified by generator tags / payloads, so the emit-time map is judged even when the structural comparison fails.",
          "LocalFunction::original_range identifies parsed bodies.",
          "DESIGN.md §4 C19"),
 
@@ -50,15 +50,15 @@ CLAIMED = {
          "Raw custom sections add no roots; wasmparser decodes the output.",
          "DESIGN.md §4 C07, §3.4"),
  'C15': ("model-based generation: typed model tree + independent construction plan (proptest), flattening oracle",
-         "A model tree of stack-neutral statements with nested block/loop/if-else and branches is realised through the builder API by a generated plan (insertion order, append vs *_at, closure-nested vs dangling sequences attached before/after filling, fills deferred to the end); the decoded emitted body must equal the model's in-order flattening including branch depths, parameter positions and an injective, type-correct local slot map.",
+         "A model tree of stack-neutral statements with nested block/loop/if-else and branches is realised through the builder API by a generated plan (insertion order, append vs *_at, closure-nested vs dangling sequences attached before/after filling, fills deferred to the end); the decoded emitted body must equal the model's in-order flattening including branch depths, block signatures (0-2 parameters and results via InstrSeqType::new), parameter positions and an injective, type-correct local slot map; in half of the cases nested sequences are allocated before the sequences that later enclose them.",
          "Statements are restricted to a typed family that is valid by construction (i32 arithmetic, locals, branches to value-less labels).",
          "DESIGN.md §4 C15"),
  'C16': ("property-based generation of instruction trees (parsed and builder-made), reference-walk oracle; child process on a 256 KiB stack for depth 10^5",
-         "Recording visitors (default hooks and overridden per-instruction hooks, immutable and mutable) are compared with a recursive reference walk using a hand-written operand table: event sequence for dfs_in_order, per-instruction id multisets for both traversals; non-recursion is decided by traversing depth-10^5 trees on a 256 KiB thread stack in a child process (death by signal = violation).",
+         "Recording visitors (default hooks and overridden per-instruction hooks, immutable and mutable) are compared with a recursive reference walk using a hand-written operand table: event sequence for dfs_in_order, per-instruction id multisets for both traversals, started at the entry and at nested sequences; non-recursion is decided by traversing depth-10^5 trees on a 256 KiB thread stack in a child process (death by signal = violation).",
          "The operand table is written by hand from the Instr field documentation.",
          "DESIGN.md §4 C16"),
  'C17': ("exhaustive enumeration of operation sequences (small scope) + random long sequences (proptest), map-based reference model",
-         "All add/delete sequences up to length 6 (quick) / 7 (thorough) over a 7-symbol alphabet are run against each of the 10 public collections in lock-step with a model; after every step all ids ever issued, iteration, len and lookups are compared. Exhaustive within that bound; random sequences up to length 60 beyond it.",
+         "All add/delete sequences up to length 6 (quick) / 7 (thorough) over a 7-symbol alphabet are run against each of the 10 public collections in lock-step with a model; after every step all ids ever issued, iteration, len and lookups are compared. The alphabets include remove-by-name, mutable access (also on deleted ids), indirect additions (a FunctionBuilder adding a signature and a hidden entry type), typed and untyped custom-section ids and a non-raw section type. Exhaustive within that bound; random sequences up to length 60 beyond it.",
          "'reported as absent' means a panic or None/Err.",
          "DESIGN.md §4 C17"),
 
@@ -72,7 +72,7 @@ CLAIMED = {
          "Edits are well-formed by construction (back-links maintained as documented); DWARF generation is exercised under C10.",
          "DESIGN.md §4 C02"),
  'C08': ("metamorphic byte-equality relations over generated modules (proptest): repeat emit, fresh parse, fresh process, extra round trip",
-         "For each module: three emits on one Module value, emits from two fresh parses, an emit in a fresh process (sampled), and emit(parse(output)) must all be byte-identical; default config and synthetic-name config. Exploration over sampled modules.",
+         "For each module: three emits on one Module value, emits from two fresh parses, an emit in a fresh process (sampled), and emit(parse(output)) must all be byte-identical, likewise for the output of parse>GC>emit; `emit; edit; emit` must equal `fresh parse; edit; emit`; default config and synthetic-name config. Exploration over sampled modules.",
          "Hash-seed / ASLR nondeterminism is only sampled through the fresh-process comparison.",
          "DESIGN.md §4 C08"),
  'C12': ("property-based generation of custom-section placements (proptest), list-equality oracle",
@@ -80,7 +80,7 @@ CLAIMED = {
          "A trivial section walker (no wasmparser) extracts custom sections.",
          "DESIGN.md §4 C12"),
  'C20': ("property-based generation across feature profiles (proptest), validator-under-reduced-feature-sets oracle",
-         "For each module and each candidate feature set S under which the input validates (greedy minimal set, MVP, generating set, full set minus one proposal, derived subsets) the output must validate under S as well.",
+         "For each module and each candidate feature set S under which the input validates (greedy minimal set, MVP, generating set, full set minus one proposal, derived subsets) the output must validate under S as well; witness checks cover escalations the validator does not gate (data-count section, element/data segment encodings, block types through the type section, multi-byte table/memory immediates). The same judgement is applied after four feature-neutral transformations (GC; the only table/memory localised; a builder-made block; an active data segment added through the API).",
          "wasmparser's feature gating defines which proposal a construct needs.",
          "DESIGN.md §4 C20"),
 
